@@ -1,5 +1,4 @@
 SPECIFICATION FairSpec
-CONSTANT Defs <- MCDefs
 CONSTANT ZeroLenIsError = FALSE
 CHECK_DEADLOCK FALSE
 PROPERTY Terminates
